@@ -1,6 +1,6 @@
 ID = 'C09'
 GROUPS = ['common']
-CXX_SOURCES = ['common/rpc/TestServiceService.pb.cpp']
+CXX_SOURCES = ['common/rpc/TestServiceService.pb.cpp']   # RpcServer.cpp is part of the common group
 
 def gen_consts(v):
     import os
@@ -43,12 +43,16 @@ RULE = ('one-channel scripts of chunks/calls/completions: byte streams built fro
         'zero-size, wrong-version, oversize (1 MB, 1 MB+1, 2^28-1, bits 24-27 set with small low bits) and undecodable frames, body sizes around the 2 kB '
         'initial buffer and shrinking/growing sequences, noise, arbitrary/mutated protobuf bodies whose decoding is taken '
         'from the real parser; each stream cut whole / per byte / at every header offset / randomly; calls (ordinary, '
-        'streaming, to methods of another service) interleaved at any offset; sequence numbers near 2^32 and forced id '
+        'streaming, to methods of another service) and service completions interleaved at any offset, also while a frame is '
+        'partly received; sequence numbers near 2^32 and forced id '
         'reuse; jammed send direction; requests queued and then served when the reply cannot be written (peer gone / send '
         'buffer full); calls that reuse one reply object with optional and repeated fields; asynchronous service completing requests later, out of order, with duplicate '
         'request ids.  two-channel scripts: two real RpcChannels back to back over a pipe pair, the server lacking '
         'methods and answering when told.  multi-channel scripts: 2-4 independent real channels alive in one process, '
-        'their scripts interleaved op by op (partial frames of one connection with reads of the others in between).  non-trivial = at least one message dispatched by the model; distinct = '
+        'their scripts interleaved op by op (partial frames of one connection with reads of the others in between).  '
+        'server scripts: a real RpcServer + SelectServer with 1-4 clients on injected socketpairs, requests in pieces, '
+        'hang-ups at any time (also with requests still at the asynchronous service, completed afterwards), one shared '
+        'ExportMap.  non-trivial = at least one message dispatched by the model; distinct = '
         'distinct model output line')
 ASSUMPTIONS = ['realloc does not fail', 'little-endian host (header word is read with the host byte order; LE_PROBE obligation)',
                'ConnectedDescriptor::Receive(buf, n) returns the first min(n, available) bytes (level-triggered poller); '
@@ -203,7 +207,17 @@ class Script:
     def tokens(self, mode):
         rng = self.rng
         n = len(self.stream)
-        cuts = set(o for o, _ in self.marks)
+        # calls / completions were planned at frame boundaries; half of the time move them by a few bytes so
+        # that the channel sends (a new request, a service reply) while a frame is only partly received
+        # (inside its header or its body).  Order is kept; ids stay what they were.
+        marks_j = list(self.marks)
+        if marks_j and rng.random() < 0.5:
+            prev, out_m = 0, []
+            for off, tok in sorted(marks_j, key=lambda x: x[0]):
+                o2 = min(n, max(prev, off + rng.choice([-7, -5, -3, -2, -1, 0, 1, 2, 3, 4, 5, 6, 9, 15])))
+                out_m.append((o2, tok)); prev = o2
+            marks_j = out_m
+        cuts = set(o for o, _ in marks_j)
         if mode == 'whole':
             pass
         elif mode == 'bytes':
@@ -228,7 +242,7 @@ class Script:
         toks += ['Q%s:%s' % kv for kv in self.Q.items()]
         toks += self.pre
         pos = 0
-        marks = sorted(self.marks, key=lambda x: x[0])   # stable: keeps the order of equal offsets
+        marks = sorted(marks_j, key=lambda x: x[0])   # stable: keeps the order of equal offsets
         ci = 0
         while ci < len(marks) and marks[ci][0] == 0:
             toks.append(marks[ci][1]); ci += 1
@@ -378,6 +392,31 @@ def gen_script(rng, kind):
                 for u in range(max(0, 2 - j) + rng.choice([0, 0, 1])):
                     buf += [0x12, 0x07, 0x08, 0x7a, 0x15, u, 0, 0, 1]
             s.frame(2, i, None, buf)
+    elif kind == 'types':
+        # every message type of Rpc.proto, also the ones the channel has no handler for (DISCONNECT,
+        # DESCRIPTOR_REQUEST/RESPONSE, REQUEST_CANCEL), stream requests naming ordinary methods and
+        # requests naming streaming ones; with and without an ExportMap
+        if rng.random() < 0.5: s.flags.append('E')
+        if rng.random() < 0.15: s.flags.append('N')
+        for _ in range(rng.choice([1, 2, 3, 5])):
+            r = rng.random()
+            name = rng.choice([b'Echo', b'FailedEcho', b'Stream', b'Nope', None])
+            rq = rng.choice([echo_req(b'a'), echo_req(b''), [0x00, 0x01], [], None])
+            if rq is not None and rq[:1] == [0x0a]: s.Q[hx(rq)] = hx(rq)
+            mid = rng.choice([None, 0, 1, 7, 0xffffffff])
+            if r < 0.45:
+                s.frame(rng.choice([6, 7, 8, 9]), mid, name, rq)
+            elif r < 0.75:
+                s.frame(10, mid, name, rq)
+            elif r < 0.9:
+                s.frame(1, mid, name, rq)
+            else:
+                ty = rng.choice([2, 3, 4, 5])
+                s.call(); s.frame(ty, s.ids[-1], name, echo_req(b'r') if ty == 2 else (rq if rq is not None else []))
+        if rng.random() < 0.3:
+            body = [0x08, rng.choice([0, 11, 12, 127])]        # not a value of the Type enum: not parsable
+            s.raw(header(1, len(body)) + body)
+            s.request()
     elif kind == 'async':
         # the service answers later and out of order; ids reused while a request is outstanding
         s.flags.append('A')
@@ -535,10 +574,66 @@ def gen_multi(rng):
         live = [j for j in range(n) if pos[j] < len(ops[j])]
     return ' '.join(out)
 
+def gen_server(rng):
+    """a real RpcServer with several clients: requests arrive in pieces, interleaved between clients; clients
+    hang up at any time, also with requests still at the (asynchronous) service, which completes them later"""
+    n = rng.choice([1, 2, 2, 3, 4])
+    asyncm = rng.random() < 0.75
+    head, ops = [], []
+    seen = set()
+    for k in range(n):
+        s = Script(rng, 'server')
+        served = []
+        for _ in range(rng.choice([1, 2, 3, 4])):
+            r = rng.random()
+            if r < 0.6:
+                served.append(s.served_request(rng.choice([0, 1, 5, 7]), rng.choice([b'Echo', b'Echo', b'FailedEcho'])))
+            elif r < 0.75:
+                s.frame(rng.choice([1, 10]), 3, b'Nope', echo_req(b'n'))
+            elif r < 0.9:
+                rq = echo_req(b's'); s.Q[hx(rq)] = hx(rq)
+                s.frame(10, 4, b'Stream', rq)
+            else:
+                s.other_type()
+            if asyncm and served and rng.random() < 0.4:
+                s.mark('k%d%s' % (served.pop(rng.randrange(len(served))), rng.choice('RRF')))
+        if rng.random() < 0.12:
+            s.bad(rng.choice(['badver', 'oversize', 'undecodable']))
+        mine = []
+        for t in s.tokens(rng.choice(['whole', 'random', 'random', 'hdr'])).split(' '):
+            if t[0] == '@':
+                continue
+            if t[0] in 'TQ':
+                if t not in seen:
+                    seen.add(t); head.append(t)
+            else:
+                mine.append(t)
+        # the hang-up: anywhere, often with requests still at the service; they are completed afterwards
+        if rng.random() < 0.7:
+            mine.insert(rng.randrange(len(mine) + 1), 'p')
+        if asyncm:
+            for q in served:
+                if rng.random() < 0.8: mine.append('k%d%s' % (q, rng.choice('RRF')))
+        ops.append(mine)
+    out = ['@server', 'S%d' % n] + (['A'] if asyncm else []) + head
+    cur = None
+    pos = [0] * n
+    live = [k for k in range(n) if ops[k]]
+    while live:
+        k = rng.choice(live)
+        for _ in range(rng.choice([1, 1, 2, 3])):
+            if pos[k] >= len(ops[k]):
+                break
+            if cur != k:
+                out.append('i%d' % k); cur = k
+            out.append(ops[k][pos[k]]); pos[k] += 1
+        live = [j for j in range(n) if pos[j] < len(ops[j])]
+    return ' '.join(out)
+
 def gen_cases(rng, tier):
     n = 130 if tier == 'quick' else 8000
     kinds = ['valid', 'zero', 'badver', 'oversize', 'maxexact', 'undecodable', 'noise', 'bufsize',
-             'calls', 'calls', 'wrap', 'dupid', 'jam', 'async', 'async', 'bigmask', 'srvfail', 'reuse']
+             'calls', 'calls', 'wrap', 'dupid', 'jam', 'async', 'async', 'bigmask', 'srvfail', 'reuse', 'types']
     for c in gen_random_bodies(rng, 300 if tier == 'quick' else 20000):
         yield c
     for i in range(n):
@@ -546,6 +641,8 @@ def gen_cases(rng, tier):
             yield gen_two(rng)
         for _ in range(3):
             yield gen_multi(rng)
+        for _ in range(3):
+            yield gen_server(rng)
         for kind in kinds:
             s = gen_script(rng, kind)
             modes = MODES if (i % 4 == 0) else [rng.choice(MODES)]
@@ -562,10 +659,12 @@ def nontrivial(payload, md):
             if mm:
                 c = int(mm.group(1))
                 last = c if last is None else max(last, c)
+            elif '|rx-' in v and ('|D' in v or '|V' in v or '|S' in v):
+                last = 1      # no ExportMap: judge by the effects
     return bool(last)
 
 LEVEL_TEXT = ('Coq theorems, for all byte streams, all segmentations into reads and all interleavings of calls and service '
-              'completions, over an executable model of RpcChannel (with the five fixes of props/C09/fixes): every buffer '
+              'completions, over an executable model of RpcChannel (with the six fixes of props/C09/fixes): every buffer '
               'write is inside m_buffer_size <= real block <= 1 MB and the channel is never left expecting more bytes than its '
               'buffer holds (wrong-version / oversize headers close it and reset the message state); the dispatched message '
               'sequence equals a reference framer applied to the whole stream, independent of chunking; every call (streaming '
@@ -574,7 +673,10 @@ LEVEL_TEXT = ('Coq theorems, for all byte streams, all segmentations into reads 
               'reuse; the serving side only writes replies carrying the id of a request it received, also with duplicate '
               'request ids and asynchronous out-of-order completion; every server-side request object is outstanding, superseded '
               'or deleted exactly once (only inside its own completion); reads of the buffer and writes of the header array '
-              'are in bounds; any number of channels in one process, under any interleaving, each behave as if alone.  realloc failure is not modelled; calls outstanding when the channel closes are never completed '
+              'are in bounds; any number of channels in one process, under any interleaving, each behave as if alone, also '
+              'under an RpcServer whose clients hang up at any time (a deleted channel is never touched again, late service '
+              'completions included; needs fix 06); message types without a handler and stream requests to ordinary '
+              'methods never reach the service.  realloc failure is not modelled; calls outstanding when the channel closes are never completed '
               'by the code (outside the property: healthy connections).')
 LEVEL_NOTE = ('Trusted: Coq kernel, extraction (ExtrOcamlBasic), OCaml/C++ glue, generator coverage; model = code is validated '
               'by differential testing (real RpcChannel on a socketpair under ASan/UBSan, raw bytes in generated chunkings, '
